@@ -9,7 +9,7 @@
       closing DMAP-like protocol) attempt to send, in order. *)
 From Coq Require Import List Bool String Arith.
 Import ListNotations.
-Open Scope string_scope.
+Local Open Scope string_scope.
 
 (* one public member of one facade object, as found by introspection *)
 Record member := {
